@@ -105,6 +105,62 @@ fn c17(args: &[String]) -> i32 {
 	0
 }
 
+/// c06 <file.slp> <mutation> [skip]: reading a corrupted file returns (Ok or Err) — it must not panic.
+/// mutations: raw-len-5 | wrong-frame-id | port-9 | follower-flag | none
+fn c06(args: &[String]) -> i32 {
+	use std::io::Cursor;
+	let mut buf = std::fs::read(&args[0]).unwrap();
+	let skip = args.len() > 2 && args[2] == "skip";
+	// locate the first Frame Pre event (0x37) after Game Start using the payload-size table
+	let table_len = buf[16] as usize; // size byte of the Event Payloads event (includes itself)
+	let mut sizes = [0usize; 256];
+	let mut i = 17;
+	while i + 2 < 16 + table_len + 1 {
+		sizes[buf[i] as usize] = u16::from_be_bytes([buf[i + 1], buf[i + 2]]) as usize;
+		i += 3;
+	}
+	let mut pos = 16 + table_len; // first event after the table
+	let mut first_pre = None;
+	for _ in 0..64 {
+		let code = buf[pos] as usize;
+		if code == 0x37 {
+			first_pre = Some(pos);
+			break;
+		}
+		pos += 1 + sizes[code];
+	}
+	match args[1].as_str() {
+		"raw-len-5" => {
+			buf[11..15].copy_from_slice(&5u32.to_be_bytes());
+		}
+		"wrong-frame-id" => {
+			let p = first_pre.unwrap();
+			buf[p + 1..p + 5].copy_from_slice(&1000i32.to_be_bytes());
+		}
+		"port-9" => {
+			let p = first_pre.unwrap();
+			buf[p + 5] = 9;
+		}
+		"follower-flag" => {
+			let p = first_pre.unwrap();
+			buf[p + 6] = 1;
+		}
+		_ => {}
+	}
+	let opts = peppi::io::slippi::de::Opts { skip_frames: skip, ..Default::default() };
+	let r = std::panic::catch_unwind(|| peppi::io::slippi::read(&mut Cursor::new(&buf), Some(&opts)).map(|_| ()).map_err(|e| e.to_string()));
+	match r {
+		Ok(res) => {
+			println!("c06 ok: reader returned {:?}", res);
+			0
+		}
+		Err(_) => {
+			println!("c06 VIOLATED: reader panicked ({} {})", args[0], args[1]);
+			1
+		}
+	}
+}
+
 fn main() {
 	let args: Vec<String> = std::env::args().skip(1).collect();
 	if args.is_empty() {
@@ -115,6 +171,7 @@ fn main() {
 		"c15" => c15(&args[1..]),
 		"c15-search" => c15_search(),
 		"c17" => c17(&args[1..]),
+		"c06" => c06(&args[1..]),
 		_ => {
 			eprintln!("unknown clause {}", args[0]);
 			3
